@@ -87,6 +87,7 @@ type world struct {
 	backend     map[string]*backendPlan
 	uploadFault map[string]string // id -> "503x3" | "err"
 
+	cancelled   []string  // requests whose round trip to the backend was cancelled
 	killedBy    os.Signal // a signal nobody was registered for ended the process
 	flushed     int       // lock-step backend: chunks handed to the agent so far
 	listEnds    []time.Duration
@@ -425,7 +426,17 @@ func (b backendRT) RoundTrip(r *http.Request) (*http.Response, error) {
 		bp = &backendPlan{}
 	}
 	if bp.latency > 0 {
-		vtime.Sleep(bp.latency)
+		// the backend works for a while; a request whose context is cancelled meanwhile fails like a
+		// real round trip would
+		fired := false
+		cancel := w.s.AddTimer(bp.latency, "backend latency", func() { fired = true })
+		vs.Wait("backend: working on "+tok, nil, func() bool { return fired || r.Context().Err() != nil })
+		cancel()
+		if !fired {
+			w.touch()
+			w.cancelled = append(w.cancelled, tok)
+			return nil, r.Context().Err()
+		}
 	}
 	status := bp.status
 	if status == 0 {
